@@ -64,8 +64,17 @@ func genGrow(t *rapid.T) (*Case, []string) {
 		}
 		return true
 	}
+	// a method declared after a use is often followed by an interface which
+	// requires it and by a use of that interface through a form used before
+	forceIface, forceUse := -1, -1
 	for k := 0; k < n; k++ {
 		kind := rapid.IntRange(0, 9).Draw(t, "kind")
+		switch {
+		case forceIface >= 0:
+			kind = 3
+		case forceUse >= 0:
+			kind = 9
+		}
 		switch {
 		case kind <= 2 && len(methods) < 4:
 			m := rapid.IntRange(0, 3).Draw(t, "m")
@@ -81,28 +90,36 @@ func genGrow(t *rapid.T) (*Case, []string) {
 			decls = append(decls, fmt.Sprintf("func (%s) M%d() int { return t.V*%d + %d }", recv, m, d.a, m))
 			if len(usedForm) > 0 {
 				methodAfterUse[m] = true
+				if rapid.IntRange(0, 2).Draw(t, "follow") > 0 {
+					forceIface = m
+				}
 			}
 		case kind <= 4 || len(ifaces) == 0:
 			var set []int
 			for m := 0; m <= 4; m++ {
-				w := 3
-				if m == 4 {
-					w = 7 // the method which is never declared
+				// methods already declared are preferred, so that uses are possible
+				// early; M4 is never declared. Every interface requires Base: the
+				// set may be empty.
+				w := 4
+				if _, ok := methods[m]; ok {
+					w = 1
+				} else if m == 4 {
+					w = 7
 				}
-				if rapid.IntRange(0, w).Draw(t, "in") == 0 {
+				if rapid.IntRange(0, w).Draw(t, "in") == 0 || m == forceIface {
 					set = append(set, m)
 				}
 			}
-			if len(set) == 0 {
-				set = []int{rapid.IntRange(0, 3).Draw(t, "one")}
+			if forceIface >= 0 {
+				forceIface, forceUse = -1, len(ifaces)
 			}
 			sort.Ints(set)
 			id := len(ifaces)
 			ifaces = append(ifaces, set)
-			var ms, calls []string
+			ms, calls := []string{"Base() int"}, []string{"x.Base()"}
 			for j, m := range set {
 				ms = append(ms, fmt.Sprintf("M%d() int", m))
-				calls = append(calls, fmt.Sprintf("%d*x.M%d()", j*7+1, m))
+				calls = append(calls, fmt.Sprintf("%d*x.M%d()", j*7+2, m))
 			}
 			decls = append(decls, fmt.Sprintf("type I%d interface{ %s }\n\nfunc useI%d(tag string, x I%d) int {\n\ts := %s\n\tfmt.Println(tag, s)\n\treturn s\n}\n\nfunc asI%d(tag string, n IB) int {\n\tx, ok := n.(I%d)\n\tif !ok {\n\t\tfmt.Println(tag, \"no\")\n\t\treturn -1\n\t}\n\treturn useI%d(tag, x)\n}",
 				id, strings.Join(ms, "; "), id, id, strings.Join(calls, " + "), id, id, id))
@@ -110,8 +127,24 @@ func genGrow(t *rapid.T) (*Case, []string) {
 			form := growForms[rapid.IntRange(0, len(growForms)-1).Draw(t, "form")]
 			dynamic := rapid.IntRange(0, 2).Draw(t, "dynamic") == 0
 			var ok []int
+			if forceUse >= 0 {
+				// prefer a form used before which implements the new interface
+				for _, f := range growForms {
+					if usedForm[f] > 0 && implements(f, ifaces[forceUse]) && (f == form || !implements(form, ifaces[forceUse]) || usedForm[form] == 0) {
+						form = f
+						break
+					}
+				}
+				if implements(form, ifaces[forceUse]) {
+					ok = []int{forceUse}
+				}
+				forceUse = -1
+			}
 			for id, set := range ifaces {
-				never := set[len(set)-1] == 4
+				never := len(set) > 0 && set[len(set)-1] == 4
+				if len(ok) == 1 && ok[0] == id {
+					continue
+				}
 				if implements(form, set) || (dynamic && never) {
 					ok = append(ok, id)
 				}
@@ -119,6 +152,7 @@ func genGrow(t *rapid.T) (*Case, []string) {
 			if len(ok) == 0 {
 				continue
 			}
+			// index 0 (the shrink target and rapid's favourite) is the forced interface, if any
 			id := ok[rapid.IntRange(0, len(ok)-1).Draw(t, "iface")]
 			v := rapid.IntRange(-5, 9).Draw(t, "v")
 			fn := "useI"
@@ -127,9 +161,9 @@ func genGrow(t *rapid.T) (*Case, []string) {
 			}
 			decls = append(decls, fmt.Sprintf("var gu%d = %s%d(\"u%d\", %s)", k, fn, id, k, growExpr(form, v)))
 			if implements(form, ifaces[id]) {
-				s := 0
+				s := v
 				for j, m := range ifaces[id] {
-					s += (j*7 + 1) * (v*methods[m].a + m)
+					s += (j*7 + 2) * (v*methods[m].a + m)
 				}
 				fmt.Fprintf(&expect, "u%d %d\n", k, s)
 			} else {
